@@ -121,6 +121,15 @@ def direct_checks(c, res, kinds):
                     out.append(("enum", f"enumeration differs from brute force: lost {lost[:3]} extra {extra[:3]} duplicated {dup[:3]} ({len(sols)} vs {len(exp)})"))
     else:
         best = res[1]
+        if "sat" in kinds and best is not None:
+            for vs, a, ps in prob.props:
+                if not oracle.rel_weak(a, ps, [best[v] for v in vs]):
+                    out.append(("sat", f"the vector {best} returned by {'minimize' if c['minimize'] else 'maximize'}({c['v']}) violates {a}{ps} on variables {vs}"))
+                    break
+            for v, (i, o) in enumerate(zip(prob.idx, prob.off)):
+                lo, hi = prob.shr[i]
+                if not lo + o <= best[v] <= hi + o:
+                    out.append(("sat", f"optimisation result {best}: variable {v} outside its domain"))
         if "opt" in kinds:
             exp = oracle.problem_solutions(prob)
             if exp is not None:
